@@ -454,7 +454,9 @@ class Prop:
 
     def make_violation(self, c, sig, clause_key, clause_name, r, wd, why):
         inputs = r['inputs'].get(clause_key) or r['inputs'].get(clause_name) or {}
-        path = os.path.join(VERIF, 'replay', '%s_%s.%s.json' % (self.id, re.sub(r'\W', '_', c.fn)[:60], re.sub(r'\W', '_', clause_name)[:60]))
+        multi = sum(1 for x in self.contracts if x.fn == c.fn) > 1
+        path = os.path.join(VERIF, 'replay', '%s_%s%s.%s.json' % (self.id, re.sub(r'\W', '_', c.fn)[:60], ('@' + re.sub(r'\W', '_', c.build)) if multi else '',
+                                                               re.sub(r'\W', '_', clause_name)[:60]))
         rec = {'property': self.id, 'obligation': '%s.%s' % (c.fn, clause_name), 'function': c.fn, 'real': c.real, 'build': c.build,
                'kind': c.kind, 'clause': dict(c.ensures).get(clause_name, clause_name), 'requires': c.requires,
                'verifier': {'backend': r['backend'], 'status': 'FAILURE', 'log': r['log'][-2000:]}, 'inputs': inputs, 'why': why}
@@ -556,13 +558,21 @@ def replay_file(P, path):
     if not cs:
         print('no contract named', rec['function'])
         return 2
-    c = cs[0]
+    c = ([x for x in cs if x.build == rec.get('build')] or cs)[0]
     b = P.builds[c.build]
     compile_build(b, wd)
     if c.fn not in b.driver.shims:
         print('obligation %s is on an internal function; verifier output:\n%s' % (rec['obligation'], rec['verifier']['log']))
         return 1
-    rp = run_replay(b, b.driver.shims[c.fn], c, {k: int(v) for k, v in rec['inputs'].items()}, wd, 'file', sanitize=(c.kind == 'U'))
+    inputs = {k: int(v) for k, v in rec['inputs'].items()}
+    if c.kind == 'R':
+        rp = run_replay_R(b, b.driver.shims[c.fn], c, inputs, wd, 'file')
+    else:
+        rb = None
+        if getattr(c, 'rel', None):
+            rb = P.builds[c.rel[0]]
+            compile_build(rb, wd)
+        rp = run_replay(b, b.driver.shims[c.fn], c, inputs, wd, 'file', sanitize=(c.kind == 'U'), rel_build=rb)
     print('obligation:', rec['obligation'])
     print('inputs:', rec['inputs'])
     print(rp.get('out', ''), rp.get('err', '') or '', rp.get('error', '') or '')
